@@ -120,6 +120,10 @@ type Sim struct {
 	// OnStep, if set, is called by RunUntil after every step while all simulated
 	// goroutines are blocked (invariant evaluation).
 	OnStep func()
+	// YieldAfterUnlock makes every mutex release by a simulated goroutine a scheduling
+	// point as well (off by default: acquisitions are the scheduling points). Set by a
+	// scenario before it starts goroutines.
+	YieldAfterUnlock bool
 	// Progress is bumped on every step (real-time watchdog).
 	Progress atomic.Int64
 }
@@ -396,9 +400,11 @@ func Unlock(unlock func(), site string) {
 	}
 	raceDisable()
 	id := goid()
+	var yg *G
 	s.mu.Lock()
 	if !s.closed {
-		if g := s.lookup(id); g != nil && g.locks > 0 {
+		g := s.lookup(id)
+		if g != nil && g.locks > 0 {
 			g.locks--
 		}
 		for i := 0; i < s.ng; i++ {
@@ -406,9 +412,17 @@ func Unlock(unlock func(), site string) {
 				w.wk = wRun
 			}
 		}
+		if s.YieldAfterUnlock && g != nil && !g.root {
+			yg = g
+		}
 	}
 	s.mu.Unlock()
 	raceEnable()
+	if yg != nil {
+		// a scheduling point right after the release: what follows a critical section
+		// (an atomic update of a value looked up under the lock, say) can be overtaken
+		s.park(yg, site, wRun)
+	}
 }
 
 type tryLocker interface{ TryLock() bool }
